@@ -91,7 +91,8 @@ package bfe_server
 //@   ensures[and_no_other] forall b *backend.BfeBackend :: b != request.Trans.Backend ==> b.connNum == old(b.connNum)
 
 //@ func (*ReverseProxy).FinishReq
-//@   props C07
+//@   props C07,C48
+//@   assert[a_finish_verdict_of_the_finish_phase_closes_the_connection_after_the_reply] at "return" #1 :: retVal == bfe_module.BfeHandlerFinish && action == closeAfterReply
 //@   requires p != nil && p.server != nil && request != nil
 //@   requires forall b *backend.BfeBackend :: -1000000000 < b.connNum && b.connNum < 1000000000
 //@   frame * keeps any backend.BfeBackend.connNum, request.Trans.Backend
